@@ -28,7 +28,6 @@ use rustc_hir::def::DefKind;
 use rustc_hir::def_id::{DefId, LocalDefId};
 use rustc_index::IndexVec;
 use rustc_interface::interface;
-use rustc_middle::ty::TypeVisitableExt;
 use rustc_middle::mir::{
     self, AggregateKind, BasicBlock, Body, Const, ConstValue, Operand, Place,
     ProjectionElem, Promoted, Rvalue, StatementKind, TerminatorKind,
@@ -376,6 +375,75 @@ impl<'tcx> Extractor<'tcx> {
             arr(variants),
             self.span_json(tcx.def_span(did)),
         )
+    }
+
+    /// Resolution of the calls of `def`'s body (and of closures created in it) under the generic arguments `gargs`:
+    /// `[bb, resolved-or-null, [generic args], [nested entries for a generic local callee]]` and `["c", closure def, [entries]]`.
+    fn mono_entries(&self, def: LocalDefId, gargs: ty::GenericArgsRef<'tcx>, fe: ty::TypingEnv<'tcx>, depth: usize) -> Vec<String> {
+        let tcx = self.tcx;
+        let mut ms = Vec::new();
+        if depth > 3 {
+            return ms;
+        }
+        let Some(c) = self.captured.get(&def) else { return ms };
+        let cb: &Body<'tcx> = unsafe { std::mem::transmute(&c.body) };
+        for (bb, data) in cb.basic_blocks.iter_enumerated() {
+            for st in data.statements.iter() {
+                if let mir::StatementKind::Assign(bx) = &st.kind {
+                    if let mir::Rvalue::Aggregate(kind, _) = &bx.1 {
+                        let (cdef, cargs) = match &**kind {
+                            mir::AggregateKind::Closure(d, a) => (*d, *a),
+                            mir::AggregateKind::Coroutine(d, a) => (*d, *a),
+                            _ => continue,
+                        };
+                        let Some(cl) = cdef.as_local() else { continue };
+                        let ci = ty::EarlyBinder::bind(cargs).instantiate(tcx, gargs);
+                        let Ok(cn) = tcx.try_normalize_erasing_regions(fe, ci) else { continue };
+                        let sub = self.mono_entries(cl, cn, fe, depth + 1);
+                        if !sub.is_empty() {
+                            ms.push(format!("[\"c\",{},{}]", esc(&self.path(cdef)), arr(sub)));
+                        }
+                    }
+                }
+            }
+            let Some(term) = &data.terminator else { continue };
+            let TerminatorKind::Call { func: Operand::Constant(c2), .. } = &term.kind else { continue };
+            let ty::FnDef(d2, g2) = c2.const_.ty().kind() else { continue };
+            let g2i = ty::EarlyBinder::bind(*g2).instantiate(tcx, gargs);
+            let Ok(g2n) = tcx.try_normalize_erasing_regions(fe, g2i) else { continue };
+            let is_trait = tcx.trait_of_assoc(*d2).is_some();
+            let mut res = String::from("null");
+            let mut target: (DefId, ty::GenericArgsRef<'tcx>) = (*d2, g2n);
+            if is_trait {
+                if let Ok(Some(inst)) = ty::Instance::try_resolve(tcx, fe, *d2, g2n) {
+                    let rd = inst.def_id();
+                    if rd != *d2 {
+                        res = esc(&self.path(rd));
+                        target = (rd, inst.args);
+                    }
+                }
+            }
+            let mut sub = Vec::new();
+            if let Some(tl) = target.0.as_local() {
+                if matches!(tcx.def_kind(target.0), DefKind::Fn | DefKind::AssocFn)
+                    && target.1.iter().any(|a| a.as_type().map_or(false, |t| !matches!(t.kind(), ty::Param(_))))
+                {
+                    sub = self.mono_entries(tl, target.1, fe, depth + 1);
+                }
+            }
+            if !is_trait && sub.is_empty() {
+                continue;
+            }
+            let ga2: Vec<String> = g2n
+                .iter()
+                .map(|a| {
+                    let s = self.p(|| format!("{}", a));
+                    esc(&self.fix(s))
+                })
+                .collect();
+            ms.push(format!("[{},{},{},{}]", Self::bb(bb), res, arr(ga2), arr(sub)));
+        }
+        ms
     }
 
     fn body_json(&self, owner: LocalDefId, body: &Body<'tcx>, promoted: Option<usize>) -> String {
@@ -745,39 +813,14 @@ impl<'tcx> Extractor<'tcx> {
                             }
                         }
                         let _ = write!(extra, ",\"callee_crate\":{}", esc(tcx.crate_name(def.krate).as_str()));
-                        // a generic function of this crate called with concrete type arguments: how the trait-method calls
-                        // inside it resolve under THESE arguments (used when the rules inline the helper)
+                        // a generic function of this crate called with (partly) concrete type arguments: how the calls inside it
+                        // (and inside the generic functions and closures it reaches, to a small depth) resolve under THESE arguments
                         if let Some(ld) = def.as_local() {
-                            if gargs.iter().any(|a| a.as_type().is_some()) && !gargs.has_non_region_param() {
-                                if let Some(c) = self.captured.get(&ld) {
-                                    let cb: &Body<'tcx> = unsafe { std::mem::transmute(&c.body) };
-                                    let fe = ty::TypingEnv::fully_monomorphized();
-                                    let mut ms = Vec::new();
-                                    for (bb, data) in cb.basic_blocks.iter_enumerated() {
-                                        let Some(term) = &data.terminator else { continue };
-                                        let TerminatorKind::Call { func: Operand::Constant(c2), .. } = &term.kind else { continue };
-                                        let ty::FnDef(d2, g2) = c2.const_.ty().kind() else { continue };
-                                        if tcx.trait_of_assoc(*d2).is_none() {
-                                            continue;
-                                        }
-                                        let g2i = ty::EarlyBinder::bind(*g2).instantiate(tcx, gargs);
-                                        let Ok(g2n) = tcx.try_normalize_erasing_regions(fe, g2i) else { continue };
-                                        let ga2: Vec<String> = g2n.iter().map(|a| {
-                                            let s = self.p(|| format!("{}", a));
-                                            esc(&self.fix(s))
-                                        }).collect();
-                                        let mut res = String::from("null");
-                                        if let Ok(Some(inst)) = ty::Instance::try_resolve(tcx, fe, *d2, g2n) {
-                                            let rd = inst.def_id();
-                                            if rd != *d2 {
-                                                res = esc(&self.path(rd));
-                                            }
-                                        }
-                                        ms.push(format!("[{},{},{}]", Self::bb(bb), res, arr(ga2)));
-                                    }
-                                    if !ms.is_empty() {
-                                        let _ = write!(extra, ",\"mono\":{}", arr(ms));
-                                    }
+                            // (at least one type argument that is not itself a bare parameter of the caller)
+                            if gargs.iter().any(|a| a.as_type().map_or(false, |t| !matches!(t.kind(), ty::Param(_)))) {
+                                let ms = self.mono_entries(ld, gargs, te, 0);
+                                if !ms.is_empty() {
+                                    let _ = write!(extra, ",\"mono\":{}", arr(ms));
                                 }
                             }
                         }
